@@ -31,8 +31,15 @@ def check(pm: ProgramModel, ctx: Ctx) -> None:
     ctx.assumptions = ["well-formed tree; unique feature names (sets of features hash by name)"]
     rule = "C15"
     entry = pm.func("get_atomic_sets", "fm_atomic_sets")
-    walk = pm.func("compute_atomic_sets", "fm_atomic_sets")
     mb = ModelBuilder(pm)
+    try:
+        walk = pm.func("compute_atomic_sets", "fm_atomic_sets")
+    except AnalysisError as exc:
+        # the recursive walk was restructured: no inductive step to check, the whole function decides the family
+        ctx.unverified("C15-STEP", "shape", loc(entry.unit.path, entry.node), f"step check not applicable: {exc.reason}")
+        whole(pm, ctx, mb, entry)
+        check_wrapper(pm, ctx, "C15-WRAP", "FMAtomicSets", "get_atomic_sets", "fm_atomic_sets")
+        return
     # init --------------------------------------------------------------------------------------
     root = mb.feature("root")
     mb.relation(root, [mb.feature("m")], 1, 1)
